@@ -669,3 +669,29 @@ func valueLeaves(v ssa.Value, at *ssa.BasicBlock) []leaf {
 	walk(v, base, map[*ssa.Phi]int{}, 0)
 	return out
 }
+
+// scannerClosedFact recognises a fact that says the region scanner is closed: the helper
+// isRegionScannerClosed() returned true, or - the helper written out - the scanner id field equals
+// the "no scanner" sentinel (the all-ones uint64). ok is false for unrelated facts.
+func scannerClosedFact(p *kit.Prog, f kit.Fact) (closed bool, ok bool) {
+	if cc, isCall := f.Cond.(*ssa.Call); isCall && strings.HasSuffix(kit.CalleeName(cc), "scanner).isRegionScannerClosed") {
+		return f.Pol, true
+	}
+	idF := p.Field("", "scanner", "curRegionScannerID")
+	cmp, isCmp := kit.CanonCmp(f.Cond, f.Pol)
+	if !isCmp || idF == nil || (cmp.Op != token.EQL && cmp.Op != token.NEQ) {
+		return false, false
+	}
+	x, y := cmp.X, cmp.Y
+	if !isLoadOfField(x, idF) {
+		x, y = y, x
+	}
+	if !isLoadOfField(x, idF) {
+		return false, false
+	}
+	k, isC := kit.Strip(y).(*ssa.Const)
+	if !isC || k.Value == nil || k.Value.ExactString() != "18446744073709551615" {
+		return false, false
+	}
+	return cmp.Op == token.EQL, true
+}
